@@ -32,8 +32,8 @@ pub struct Replay {
 }
 
 pub enum ReplayOutcome {
-    /// the same oracle fired again
-    Reproduced(Violation),
+    /// the same oracle fired again (with the last events of the run, oldest first)
+    Reproduced(Violation, Vec<String>),
     /// the run completed and judged clean, or a different oracle fired
     NotReproduced(String),
     /// the workload does not compile any more (only happens to minimisation candidates)
@@ -62,7 +62,7 @@ pub fn execute(r: &Replay) -> ReplayOutcome {
     let crate::cell::Evaluated { result: res, judgement: j } =
         crate::cell::evaluate(w, &mk, reference.as_ref(), spec, Source::Trace(trace.clone()));
     match j.violations.iter().find(|v| v.oracle == r.oracle) {
-        Some(v) => ReplayOutcome::Reproduced(v.clone()),
+        Some(v) => ReplayOutcome::Reproduced(v.clone(), res.recent.clone()),
         None => ReplayOutcome::NotReproduced(format!(
             "outcome {:?}, violations {:?}",
             res.outcome,
